@@ -67,6 +67,9 @@ def worker(case):
         if src[0] == "base":
             text = vw.render(c06.base_vad(), order=list(src[1]), style=src[2])
             tag = "base"
+        elif src[0] == "chain":
+            text = vw.render(c06.chain_vad(len(src[1])), order=list(src[1]))
+            tag = "chain"
         else:
             text = vw.render(c06.expr_vad(src[1], src[2], src[3], src[4]))
             tag = "expr:%s:%s" % ("+".join(a[0] for a in src[1]) or "empty", src[4])
@@ -122,16 +125,19 @@ def cases(tier):
     for order in itertools.permutations(range(3)):
         for style in ("header", "ansi"):
             srcs.append(("base", list(order), style))
+    for depth in (3, 4):
+        for order in itertools.permutations(range(depth)):
+            srcs.append(("chain", list(order)))
     for c in c06.cases(tier):
         if c[0] == "expr" and len(c) == 6 and (tier == "thorough" or c[2] == 2):
             srcs.append(("expr", c[1], c[2], c[3], c[4]))
     for src in srcs:
         for tr in TRANSFORMS:
-            if src[0] == "expr" and tr != "identity" and tier != "thorough":
+            if src[0] in ("expr", "chain") and tr != "identity" and tier != "thorough":
                 continue
             for wb in (True, False):
                 for dp in (False, True):
-                    if src[0] == "expr" and (not wb or dp) and tier != "thorough":
+                    if src[0] in ("expr", "chain") and (not wb or dp) and tier != "thorough":
                         continue
                     out.append(("text", src, tr, wb, dp, "asc"))
     d = os.path.join(core.REPO, "example_netlists", "verilog_netlists")
